@@ -74,6 +74,7 @@ func (client *Client) send(call *Call) {
 	// Register this call.
 	client.mutex.Lock()
 	if client.shutdown || client.closing {
+		verifSendShutdown(client, call)
 		client.mutex.Unlock()
 		call.Error = ErrShutdown
 		call.done()
@@ -82,6 +83,7 @@ func (client *Client) send(call *Call) {
 	seq := client.seq
 	client.seq++
 	client.pending[seq] = call
+	verifSend(client, call, seq)
 	client.mutex.Unlock()
 
 	// Encode and send the request.
@@ -135,12 +137,14 @@ func (client *Client) input() {
 			if err != nil {
 				err = errors.New("reading error body: " + err.Error())
 			}
+			verifRecv(client, seq)
 			call.done()
 		default:
 			err = client.codec.ReadResponseBody(call.Reply)
 			if err != nil {
 				call.Error = errors.New("reading body " + err.Error())
 			}
+			verifRecv(client, seq)
 			call.done()
 		}
 	}
@@ -156,6 +160,7 @@ func (client *Client) input() {
 			err = io.ErrUnexpectedEOF
 		}
 	}
+	verifInputEnd(client, err, closing)
 	for _, call := range client.pending {
 		call.Error = err
 		call.done()
